@@ -27,7 +27,15 @@ func NewLogHist(b int, m float64, max float64) *LogHist {
 }
 
 func (h *LogHist) bin(x float64) int {
-	return int(math.Floor(h.mOverLogb * math.Log(x)))
+	b := math.Floor(h.mOverLogb * math.Log(x))
+	// Clamp before converting; see LinearHist.bin. This also
+	// puts x <= 0 (Log is -Inf or NaN) below the first bin.
+	if !(b >= 0) {
+		return -1
+	} else if b >= float64(len(h.bins)) {
+		return len(h.bins)
+	}
+	return int(b)
 }
 
 func (h *LogHist) Add(x float64) {
